@@ -40,9 +40,23 @@ import (
 type tracker struct {
 	mu    sync.Mutex
 	calls []string
+	slow  bool // the Track handler is reached later than an Untrack dispatched right after it
+}
+
+func (t *tracker) setSlow(b bool) {
+	t.mu.Lock()
+	t.slow = b
+	t.mu.Unlock()
 }
 
 func (t *tracker) rec(prefix string, in *api.Pin) {
+	t.mu.Lock()
+	slow := t.slow && prefix == "T"
+	t.mu.Unlock()
+	if slow {
+		// a legal schedule of the goroutine GoContext started for this call
+		time.Sleep(3 * time.Millisecond)
+	}
 	t.mu.Lock()
 	defer t.mu.Unlock()
 	defer func() {
@@ -327,6 +341,46 @@ func (w *world) exec(tok string) (obs string, ok bool) {
 				r.applied++
 				want = 1
 			}
+		}
+	case strings.HasPrefix(code, "B"), strings.HasPrefix(code, "S"):
+		// entries applied back to back, as Raft's FSM goroutine does with a batch of committed entries;
+		// the tracker calls are collected afterwards, in arrival order
+		c, err := strconv.Atoi(code[1:])
+		if err != nil {
+			return "", false
+		}
+		res = "ok"
+		if r.up {
+			r.tr.setSlow(code[0] == 'S')
+			for r.up && r.applied < c && r.applied < len(w.ops) {
+				resp, panicked := safeApply(r.fsm, w.ops[r.applied].encode())
+				if panicked {
+					res = "crash"
+					r.tr.take(0)
+					r.halt()
+					break
+				}
+				r.applied++
+				if resp == nil {
+					res = "err"
+					break
+				}
+				want++
+			}
+			if res == "ok" && r.applied < c {
+				res = "noop" // ran out of entries
+			}
+			if r.up {
+				l, _ := r.tr.takeFor(want, 5*time.Second)
+				r.tr.setSlow(false)
+				calls := "-"
+				if len(l) > 0 {
+					calls = strings.Join(l, "+")
+				}
+				return fmt.Sprintf("%s~%d~%s~%s", res, r.applied, r.view(), calls), true
+			}
+		} else if c > r.applied {
+			res = "noop"
 		}
 	case code == "b", code == "s":
 		if r.up && r.pending == nil {
